@@ -166,6 +166,12 @@ def concerns(pid, sc, res, code, inst, plain_mismatch, prefix_code=None):
         kws = ERR_KEYWORDS[pid]
         known_any = any(k in msg for ks in ERR_KEYWORDS.values() for k in ks)
         return (not known_any) or any(k in msg for k in kws)
+    if code == 11 and pid in ('C11', 'C16'):
+        # a different number of recorded instants: the grid (C11) when no stop condition is in play, the stop condition (C16) otherwise
+        stops = any(op[0] == 'run' and op[4] for op in sc['ops'])
+        return stops == (pid == 'C16')
+    if pid == 'C04' and (res.get('static') or {}).get('selflock'):
+        return False                  # C04 speaks of trajectories that are never held: a self-locking train's disagreements belong to C13 / C12
     if pid == 'C12':
         sched = any(op[0] in ('reset', 'newsolver') for op in sc['ops']) or len([op for op in sc['ops'] if op[0] == 'run']) > 1
         return sched and not plain_mismatch and code not in (5, 6, 7, 8, 9)
